@@ -75,6 +75,14 @@ def _arbitrary(rng, m):
 
 def run(ctx: Ctx) -> Result:
     res = Result(ctx.prop)
+    if ctx.thorough:
+        # (MC) the implementation-shaped forward step (spec/Simulate.tla: data rows, first/last arg-max rules, selection
+        # through the optimal row) against the declarative decision rule, for every model of spec/Family.tla and every
+        # batch of two agents on nodes, inside cells and outside the grid range (invariant ChoiceFeasibleAndMaximal)
+        from ..unitlib import mc_or_die
+
+        mc = mc_or_die("MC_Sim", "MC_Sim.cfg", workers=16)
+        res.merge_cov(states=mc["distinct"], transitions=mc["generated"], mc_states=mc["distinct"])
     specs = make_specs(ctx, ctx.n(96, 1400))
     run_pipeline(ctx, res, specs, nontrivial=nontrivial)
     finalize_cov(res, "seeded random models over the lattice {filtered, unfiltered discrete choice} x {0,1,2 continuous "
